@@ -1,15 +1,13 @@
 package container
 
 // C25 (algebra part): Merge / Intersect / Complement / Equals / BitSet on two symbolic sets.
-// Bounds: <= verifC25N elements each, universe [0, verifC25U), arbitrary Inverse flags,
-// reuse buffer nil / empty / capacity 1 / capacity 2N (never aliasing an operand).
+// Bounds: la, lb elements (driver parameters), universe [0, verifC25U), arbitrary Inverse flags,
+// reuse buffer nil / empty / capacity 1 / capacity 8 (never aliasing an operand).
 
-const verifC25N = 3
-const verifC25U = 6
+const verifC25U = 64
 
-func verifSet(n, u int) IntSet {
-	ln := nondetInt()
-	verifAssume(ln >= 0 && ln <= n)
+func verifSet(which string, u int) IntSet {
+	ln := verifParam(which)
 	set := make([]int, ln)
 	prev := -1
 	for i := range set {
@@ -42,15 +40,14 @@ func verifSorted(s []int) bool {
 }
 
 func verifReuse() []int {
-	rc := nondetInt()
-	verifAssume(rc >= 0 && rc <= 3)
+	rc := verifParam("rc")
 	switch rc {
 	case 1:
 		return make([]int, 0)
 	case 2:
 		return make([]int, 1)
 	case 3:
-		return make([]int, 2*verifC25N)
+		return make([]int, 8)
 	}
 	return nil
 }
@@ -62,8 +59,8 @@ func verifUnchanged(s IntSet, c []int, id string) {
 }
 
 func VerifC25Merge() {
-	a := verifSet(verifC25N, verifC25U)
-	b := verifSet(verifC25N, verifC25U)
+	a := verifSet("la", verifC25U)
+	b := verifSet("lb", verifC25U)
 	reuse := verifReuse()
 	x := nondetInt()
 	verifAssume(x >= 0 && x < verifC25U)
@@ -84,8 +81,8 @@ func VerifC25Merge() {
 }
 
 func VerifC25Intersect() {
-	a := verifSet(verifC25N, verifC25U)
-	b := verifSet(verifC25N, verifC25U)
+	a := verifSet("la", verifC25U)
+	b := verifSet("lb", verifC25U)
 	reuse := verifReuse()
 	x := nondetInt()
 	verifAssume(x >= 0 && x < verifC25U)
@@ -106,8 +103,8 @@ func VerifC25Intersect() {
 }
 
 func VerifC25Misc() {
-	a := verifSet(verifC25N, verifC25U)
-	b := verifSet(verifC25N, verifC25U)
+	a := verifSet("la", verifC25U)
+	b := verifSet("lb", verifC25U)
 	x := nondetInt()
 	verifAssume(x >= 0 && x < verifC25U)
 	ina, inb := verifMember(a, x), verifMember(b, x)
